@@ -257,6 +257,14 @@ class Ctx:
     def validated(self, n=1):
         self.traces_validated += n
 
+    def inflight(self, case):
+        """record the case about to be handed to in-process implementation code that may abort the interpreter
+        (C++ assert / segfault); the supervisor turns such a death into a VIOLATION with this case as replay"""
+        path = os.environ.get("WHVERIF_INFLIGHT")
+        if path:
+            with open(path, "w") as f:
+                json.dump(case, f, default=str)
+
 
 def run_check(prop, tier, seed, module, replay=None, level="proof", need_overlay=True):
     """The decision procedure of DESIGN §2. Returns the exit code."""
@@ -274,6 +282,8 @@ def run_check(prop, tier, seed, module, replay=None, level="proof", need_overlay
             # re-exec with the overlay first on the path so `import whatshap` is the working tree
             env = dict(os.environ, WHVERIF_OVERLAY=overlay, PYTHONPATH=overlay + os.pathsep + VERIF)
             os.execve(sys.executable, [sys.executable] + sys.argv, env)
+        if os.environ.get("WHVERIF_WORKER") != "1":
+            return supervise(prop, tier, seed, level, t0)
         proof = lean_build(prop, thorough=(tier == "thorough" and os.environ.get("VERIF_LEANCHECKER", "1") == "1"))
         if not proof.get("build_ok"):
             print("[infra] lean build/audit failed:\n" + proof.get("build_log", ""), file=sys.stderr)
@@ -379,6 +389,46 @@ def run_check(prop, tier, seed, module, replay=None, level="proof", need_overlay
           f"theorems={len(thm_names)} failures={len(ctx.fails)} disagreements={len(ctx.disagreements)} "
           f"wall={time.time()-t0:.1f}s rc={rc}")
     return rc
+
+
+def supervise(prop, tier, seed, level, t0):
+    """run the actual check in a child process; if the implementation kills the interpreter (abort, segfault)
+    report that as a violation with the in-flight case as replay instead of dying silently"""
+    infl = os.path.join(os.environ.get("WHVERIF_CACHE", "/var/tmp/whatshap-verif"), "work", f"inflight-{prop}-{os.getpid()}.json")
+    os.makedirs(os.path.dirname(infl), exist_ok=True)
+    if os.path.exists(infl):
+        os.remove(infl)
+    env = dict(os.environ, WHVERIF_WORKER="1", WHVERIF_INFLIGHT=infl)
+    r = subprocess.run([sys.executable] + sys.argv, env=env)
+    rc = r.returncode
+    try:
+        if rc in (0, 1, 2):
+            return rc
+        case = None
+        if os.path.exists(infl):
+            try:
+                case = json.load(open(infl))
+            except Exception:
+                case = None
+        replay_path = os.path.join(VERIF, "replays", f"{prop}-{tier}-{seed}.json")
+        json.dump({"property": prop, "kind": "implementation-crashed-the-interpreter", "returncode": rc,
+                   "what": "the implementation aborted / crashed the Python interpreter on this input", "key": "crash",
+                   "case": case}, open(replay_path, "w"), indent=1, default=str)
+        known = load_known(prop)
+        ev = {"property_id": prop, "tier": tier, "seed": seed, "level": level,
+              "coverage": {"evaluations": 1, "distinct_nontrivial": 0, "samples": [case], "rule": "run aborted by a crash of the implementation",
+                           "explanation": "the implementation crashed the interpreter; see replay", "obligations": 0, "discharged": 0,
+                           "checker_cmd": "n/a (crash)", "trusted_base": []},
+              "wall_s": round(time.time() - t0, 2), "violations": 1}
+        json.dump(ev, open(os.path.join(VERIF, "evidence", f"{prop}.json"), "w"), indent=1, default=str)
+        if any(k == "crash" for k, _ in known):
+            print(f"KNOWN-FINDING: property={prop} key=crash " + next(t for k, t in known if k == "crash"))
+            return 0
+        print(f"VIOLATION property={prop} replay={replay_path}" + ("" if case is not None else " no-failing-input-found"))
+        return 1
+    finally:
+        if os.path.exists(infl):
+            os.remove(infl)
 
 
 # ------------------------------------------------------------------------------------------------
